@@ -1,6 +1,7 @@
 import NbioVerif.Lemmas.WsRoundTrip
 import NbioVerif.Lemmas.WsMaskProof
 import NbioVerif.Lemmas.WsTrunc
+import NbioVerif.Lemmas.WsHandshake
 /-! C12 — WebSocket message round trip: framing, masking, fragmentation, compression.
 
     Sender: `Ws.writeMessage` (WriteMessage / writeFrame) on an endpoint with configuration `gs` and environment `es`
@@ -85,6 +86,97 @@ theorem c12_truncWriter (cs : List Bytes) :
 theorem c12_segmentation (g : Cfg) (e : Env) (hl : g.readLimit = 0) (segs : List Bytes) :
     (feed g e {} segs []).obs = (feed g e {} [segs.flatten] []).obs :=
   feed_segmentation g e hl segs {} (by intro _; simp [msgLen, K.len]) (by simp [nextFrame, decodeHdr])
+
+/-! ### the opening handshake decides the configuration (Model/WsHandshake.lean) -/
+
+/-- the frame-level configuration of an endpoint after the handshake (`newConn`), given its limits -/
+def cfgOfConn (c : WsH.ConnCfg) (isClient : Bool) (msgLimit readLimit maxFrame : Nat) : Cfg :=
+  { enableCompression := c.enableCompression, writeCompression := c.writeCompression, msgLimit, readLimit, maxFrame, isClient }
+
+/-- C12 (handshake round trip): for every request the Dialer renders (any options, any non-empty challenge key) and
+    every Upgrader configuration that lets it pass the origin hook and adds no extension header of its own, the Upgrader
+    answers 101, the Dialer accepts that response (status, Upgrade/Connection tokens, Sec-WebSocket-Accept, extension
+    parameters), and BOTH ends derive the same compression setting: receive and send compression are on at both ends iff
+    both sides enabled it. (Header keys are canonical as the HTTP parsers deliver them; SHA-1 is any function.) -/
+theorem c12_handshake_roundtrip (sha1 : WsH.Bytes → WsH.Bytes) (u : WsH.UCfg) (d : WsH.DCfg) (key : WsH.Bytes)
+    (hkey : key.isEmpty = false) (ho : u.originOk = true)
+    (hx : WsH.values u.respHeader (WsH.s "Sec-Websocket-Extensions") = []) (hne : WsH.NoExtHeader u) :
+    ∃ hd srv cli, WsH.upgradeDecision sha1 u (WsH.dialRequest d key) = .ok (hd, srv) ∧
+      WsH.dialerAccepts sha1 d key 101 (WsH.canonHeader hd) = .ok cli ∧
+      srv.enableCompression = (u.enableCompression && d.enableCompression) ∧ srv.writeCompression = (u.enableCompression && d.enableCompression) ∧
+      cli.enableCompression = (u.enableCompression && d.enableCompression) ∧ cli.writeCompression = (u.enableCompression && d.enableCompression) := by
+  have hc := WsH.commCheck_dial u d key hkey ho hx
+  have hd := WsH.dialer_accepts sha1 u d
+    { key, subprotocol := WsH.selectSubprotocol u (WsH.dialRequest d key), compress := u.enableCompression && d.enableCompression } hne
+  refine ⟨_, _, _, by unfold WsH.upgradeDecision; rw [hc], hd, ?_, rfl, ?_, rfl⟩
+  · cases u.enableCompression <;> cases d.enableCompression <;> rfl
+  · cases u.enableCompression <;> cases d.enableCompression <;> rfl
+
+/-- C12 (handshake ∘ round trip): the configurations the two ends derive from a successful handshake satisfy the
+    compression precondition of `c12_roundtrip` in both directions, so every message list written by either end after the
+    handshake is delivered unchanged by the other (stated for the server as sender; the other direction is symmetric) -/
+theorem c12_handshake_then_roundtrip (sha1 : WsH.Bytes → WsH.Bytes) (u : WsH.UCfg) (d : WsH.DCfg) (key : WsH.Bytes)
+    (hkey : key.isEmpty = false) (ho : u.originOk = true)
+    (hx : WsH.values u.respHeader (WsH.s "Sec-Websocket-Extensions") = []) (hne : WsH.NoExtHeader u)
+    (hd : WsH.Header) (srv cli : WsH.ConnCfg)
+    (hup : WsH.upgradeDecision sha1 u (WsH.dialRequest d key) = .ok (hd, srv))
+    (hdial : WsH.dialerAccepts sha1 d key 101 (WsH.canonHeader hd) = .ok cli)
+    (ls lc mf : Nat) (hmf : mf > 0) (es er : Env) (hkeys : ∀ i, (es.keyAt i).length = 4)
+    (ms : List (Nat × Bytes)) (hok : ∀ m ∈ ms, MsgOK (cfgOfConn srv false ls 0 mf) (cfgOfConn cli true lc 0 mf) es er m.1 m.2)
+    (segs : List Bytes) (hsegs : segs.flatten = appWrites (cfgOfConn srv false ls 0 mf) es {} ms) :
+    delivs (feed (cfgOfConn cli true lc 0 mf) er {} segs []).acts = dataOf ms ∧ (feed (cfgOfConn cli true lc 0 mf) er {} segs []).err = none := by
+  obtain ⟨hd', srv', cli', h1, h2, h3, h4, h5, h6⟩ := c12_handshake_roundtrip sha1 u d key hkey ho hx hne
+  rw [hup] at h1
+  cases h1
+  rw [hdial] at h2
+  cases h2
+  refine c12_roundtrip (cfgOfConn srv false ls 0 mf) (cfgOfConn cli true lc 0 mf) es er hkeys hmf ?_ rfl ms hok segs hsegs
+  intro hw
+  show cli.enableCompression = true
+  have : srv.writeCompression = true := hw
+  rw [h5, ← h4, this]
+
+/-- C12 (handshake, refusals): whenever the Upgrader answers 101 the request had method GET, an `upgrade` token in
+    Connection, a `websocket` token in Upgrade, the token 13 in Sec-WebSocket-Version (a list containing 13 is tolerated),
+    a non-empty Sec-WebSocket-Key (leniency of the code: the key is NOT required to be the base64 form of 16 bytes, as
+    §4.2.1 asks; no clause of C12/C13/C15 depends on it), passed the origin hook, and the caller did not smuggle in an
+    extension header: every request violating one of the other MUSTs of RFC 6455 §4.2.1 is refused with a 4xx/5xx status
+    and never sees 101. (Token lists are scanned by the model's `headerContains`; the harness compares that
+    with an independent split-and-trim reading on every generated request.) -/
+theorem c12_handshake_musts (sha1 : WsH.Bytes → WsH.Bytes) (u : WsH.UCfg) (r : WsH.Req) (hd : WsH.Header) (c : WsH.ConnCfg)
+    (h : WsH.upgradeDecision sha1 u r = .ok (hd, c)) :
+    r.method = WsH.s "GET" ∧ WsH.headerContains r.header (WsH.s "Connection") (WsH.s "upgrade") = true ∧
+    WsH.headerContains r.header (WsH.s "Upgrade") (WsH.s "websocket") = true ∧
+    WsH.headerContains r.header (WsH.s "Sec-Websocket-Version") (WsH.s "13") = true ∧
+    (WsH.get r.header (WsH.s "Sec-Websocket-Key")).isEmpty = false ∧ u.originOk = true := by
+  unfold WsH.upgradeDecision at h
+  cases hc : WsH.commCheck u r with
+  | error e => rw [hc] at h; cases h
+  | ok n =>
+    unfold WsH.commCheck at hc
+    repeat' split at hc
+    all_goals first | (cases hc; done) | skip
+    rename_i h1 h2 h3 h4 h5 h6 h7
+    refine ⟨by simpa using h3, by simpa using h1, by simpa using h2, by simpa using h4, by simpa using h7, by simpa using h6⟩
+
+/-- C12 (Accept key): `Sec-WebSocket-Accept` is base64(SHA-1(key ++ GUID)) with the GUID constant of the code (regenerated) -/
+theorem c12_accept_key (sha1 : WsH.Bytes → WsH.Bytes) (key : WsH.Bytes) :
+    WsH.acceptKey sha1 key = WsH.b64enc (sha1 (key ++ Gen.keyGUID)) := by
+  rw [WsH.keyGUID_table]; rfl
+
+/-- C12 (handshake tables, regenerated): the token-octet table of the code is the model's `isTokenOctet` -/
+theorem c12_token_table : Gen.tokenOctets = (List.range 256).map (fun n => WsH.isTokenOctet (UInt8.ofNat n)) := WsH.tokenOctets_table
+
+/-- the key leniency, as a fact about the model of the code: a malformed (but non-empty) key is answered with 101 -/
+example : (WsH.upgradeDecision (fun _ => []) { enableCompression := false, subprotocols := none, originOk := true, respHeader := [] }
+    (WsH.dialRequest { enableCompression := false, subprotocols := [], host := [] } (WsH.s "x"))).isOk = true := by
+  decide
+
+/-! non-vacuity of the handshake theorems: a conforming key, and a refused request -/
+example : WsH.validKey (WsH.s "dGhlIHNhbXBsZSBub25jZQ==") = true := by decide
+example : (WsH.upgradeDecision (fun _ => []) { enableCompression := true, subprotocols := none, originOk := true, respHeader := [] }
+    { method := WsH.s "POST", header := (WsH.dialRequest { enableCompression := true, subprotocols := [], host := [] } (WsH.s "dGhlIHNhbXBsZSBub25jZQ==")).header }).isOk = false := by
+  decide
 
 /-! non-vacuity: a client (masking) sends an empty text message, a ping and a 5-byte binary message in 2-byte fragments;
     the server receives the bytes one at a time -/
